@@ -760,7 +760,9 @@ class Interp:
         n = inv.trips(self, it)
         # range(k) with k < 0 (and any empty iterable) runs zero times: the trip count is max(k, 0)
         if is_sym(n):
-            n = simp(z3.If(to_z3(n) < 0, z3.IntVal(0), to_z3(n)))
+            # (kept as it is when the path condition already excludes a negative count: lengths, counts)
+            if ctx.feasible(to_z3(n) < 0):
+                n = simp(z3.If(to_z3(n) < 0, z3.IntVal(0), to_z3(n)))
         elif isinstance(n, int) and n < 0:
             n = 0
         inv.mode = 'prove'
